@@ -404,6 +404,29 @@ def _accept_guard(test: ast.AST) -> str | None:
     return None
 
 
+def operator_after_paren(ctx: Ctx) -> None:
+    poa = ctx.repo.func(PSTATES, "parse_operand_and_addressing")
+    # (b'') `(expr)` followed by an operator is not an indirect operand: the test must look at the token AFTER the closing parenthesis
+    for t in [n for n in walk_no_nested(poa.node) if isinstance(n, ast.Try)]:
+        flat = list(t.body)
+        raisers = [i for i, st in enumerate(flat) if isinstance(st, ast.If) and any(isinstance(x, ast.Raise) and "SyntaxError" in unparse(x) for x in st.body)]
+        closes = [i for i, st in enumerate(flat) if isinstance(st, ast.Expr) and call_name(st.value) == "expect_token" and "RPAREN" in unparse(st.value)]
+        if not raisers or not closes:
+            continue
+        ctx.count("paren_lookaheads")
+        i_r, i_c = raisers[0], closes[-1]
+        test = flat[i_r].test
+        tok = test.args[0] if isinstance(test, ast.Call) and call_name(test) in ("accept_token", "accept_tokens") and test.args else None
+        nexts = sum(1 for st in flat[i_c + 1:i_r] for c in calls_in(st) if call_name(c) == "p.next")
+        close_on_current = "p.current()" in unparse(flat[i_c].value)
+        if tok is None or not close_on_current:
+            raise AnalysisError("parse_operand_and_addressing: operator look-ahead after `)` not modelled")
+        ok = (unparse(tok) == "p.peek()" and nexts == 0) or (unparse(tok) == "p.current()" and nexts == 1)
+        ctx.check(i_c < i_r and ok, "parse_operand_and_addressing:operator-after-paren",
+                  f"the operator test reads the token that follows `)` (peek() while `)` is current, or current() after stepping over it); it reads `{unparse(tok)}` after {nexts} step(s): "
+                  "otherwise `lda (1 + 2) * 3` is taken for an indirect operand")
+
+
 def r5_shape_to_mode(ctx: Ctx) -> None:
     im = module_const(ctx.repo, "a816.parse.ast.nodes", "index_map")
     got = {k.member: v.member for k, v in im.items()} if isinstance(im, dict) else None
@@ -468,6 +491,7 @@ def r5_shape_to_mode(ctx: Ctx) -> None:
                       "the handler puts the token position back to the snapshot taken before the parenthesis and only then re-parses the operand as an expression")
             ctx.check(bool(parses) and unparse(h.body[parses[0]].targets[0]) == "operand", "parse_operand_and_addressing:backtrack-operand",
                       "the re-parsed expression becomes the operand")
+    operator_after_paren(ctx)
     # (c) no index component is dropped silently
     po = ctx.repo.func(PSTATES, "parse_opcode")
     ctor = calls_in(po.node, "OpcodeAstNode")
